@@ -5,6 +5,8 @@ package main
 
 import (
 	"fmt"
+	"strconv"
+	"strings"
 	"os"
 	"go/token"
 	"go/types"
@@ -222,6 +224,9 @@ func (it *Interp) textModel(st *state, name string, c *ssa.CallCommon, args []Va
 		if s.Known && len(s.S) == 1 && s.S[0] >= '0' && s.S[0] <= '9' {
 			return TupleV{it.constBV(uint64(s.S[0]-'0'), 64).signed(), NilV{}}, true
 		}
+		if (s.Sym && len(s.Chars) > 1) || (s.Known && len(s.S) > 1) {
+			return it.textModel(st, "strconv.Atoi#multi", c, args)
+		}
 		return nil, false
 	case "encoding/hex.EncodeToString":
 		sl, ok := args[0].(SliceV)
@@ -319,12 +324,16 @@ func (it *Interp) textModel(st *state, name string, c *ssa.CallCommon, args []Va
 			}
 		}
 		return SliceV{Obj: o, Len: len(parts)}, true
-	case "strconv.ParseInt", "strconv.ParseUint":
+	case "strconv.ParseInt", "strconv.ParseUint", "strconv.Atoi#multi":
 		// a string of decimal digit characters, base 10: the value by multiply-and-add; the error
 		// is nil iff every character is a digit and the value fits the bit size
 		s, ok := args[0].(StrV)
-		base, okB := it.concreteInt(args[1])
-		size, okS := it.concreteInt(args[2])
+		base, okB := 10, true
+		size, okS := 64, true
+		if name != "strconv.Atoi#multi" {
+			base, okB = it.concreteInt(args[1])
+			size, okS = it.concreteInt(args[2])
+		}
 		if !ok || !okB || !okS || base != 10 || !(s.Sym || s.Known) || size < 1 || size > 64 {
 			return nil, false
 		}
@@ -338,7 +347,12 @@ func (it *Interp) textModel(st *state, name string, c *ssa.CallCommon, args []Va
 		if len(chars) == 0 || len(chars) > 18 {
 			return nil, false
 		}
-		val := it.constBV(0, 64)
+		// n decimal digits need at most 4n bits: the higher bits of the value are constant zero
+		vw := 4*len(chars) + 1
+		if vw > 64 {
+			vw = 64
+		}
+		val := it.constBV(0, vw)
 		allDigits := it.T.one
 		for _, c := range chars {
 			if c.Hex != nil || c.HasTop() {
@@ -348,9 +362,9 @@ func (it *Interp) textModel(st *state, name string, c *ssa.CallCommon, args []Va
 			le9 := it.T.Not(it.T.And(c.B[3], it.T.Or(c.B[2], c.B[1])))
 			allDigits = it.T.And(allDigits, it.T.And(hi3, le9))
 			// val = val*10 + digit
-			x8 := BV{W: 64, B: make([]*Node, 64)}
-			x2 := BV{W: 64, B: make([]*Node, 64)}
-			for k := 0; k < 64; k++ {
+			x8 := BV{W: vw, B: make([]*Node, vw)}
+			x2 := BV{W: vw, B: make([]*Node, vw)}
+			for k := 0; k < vw; k++ {
 				x8.B[k], x2.B[k] = it.T.zero, it.T.zero
 				if k >= 3 {
 					x8.B[k] = val.B[k-3]
@@ -359,12 +373,17 @@ func (it *Interp) textModel(st *state, name string, c *ssa.CallCommon, args []Va
 					x2.B[k] = val.B[k-1]
 				}
 			}
-			dg := it.constBV(0, 64)
+			dg := it.constBV(0, vw)
 			copy(dg.B[0:4], c.B[0:4])
 			val = it.add(it.add(x8, x2, it.T.zero), dg, it.T.zero)
 		}
+		{
+			wide := it.constBV(0, 64)
+			copy(wide.B[0:vw], val.B)
+			val = wide
+		}
 		max := uint64(1)<<uint(size) - 1
-		if name == "strconv.ParseInt" {
+		if name == "strconv.ParseInt" || name == "strconv.Atoi#multi" {
 			max = uint64(1)<<uint(size-1) - 1
 		}
 		if size == 64 && name == "strconv.ParseUint" {
@@ -373,7 +392,7 @@ func (it *Interp) textModel(st *state, name string, c *ssa.CallCommon, args []Va
 		fits := it.T.Not(it.ult(it.constBV(max, 64), val))
 		okN := it.T.And(allDigits, fits)
 		// on a range error the functions return the maximum value; on a syntax error 0
-		res := BV{W: 64, B: make([]*Node, 64), Signed: name == "strconv.ParseInt"}
+		res := BV{W: 64, B: make([]*Node, 64), Signed: name != "strconv.ParseUint"}
 		mx := it.constBV(max, 64)
 		for k := 0; k < 64; k++ {
 			res.B[k] = it.T.Mux(okN, val.B[k], it.T.And(allDigits, mx.B[k]))
@@ -382,6 +401,72 @@ func (it *Interp) textModel(st *state, name string, c *ssa.CallCommon, args []Va
 			return TupleV{res, NilV{}}, true
 		}
 		return TupleV{res, ErrV{okN}}, true
+	case "strings.Join":
+		// Join of a slice whose elements are known or symbolic strings, with a known separator
+		sl, ok1 := args[0].(SliceV)
+		sep, ok2 := args[1].(StrV)
+		if !ok1 || !ok2 || !sep.Known || sl.Len < 0 {
+			return OpaqueV{"formatted text"}, true
+		}
+		out := StrV{Sym: true}
+		allKnown := true
+		var sb []byte
+		for i := 0; i < sl.Len; i++ {
+			e, ok := it.load(st, it.sliceElemPtr(sl, i), types.Typ[types.String]).(StrV)
+			if !ok {
+				return OpaqueV{"formatted text"}, true
+			}
+			cs, ok := toCharsOf(it, e)
+			if !ok {
+				return OpaqueV{"formatted text"}, true
+			}
+			if i > 0 {
+				for k := 0; k < len(sep.S); k++ {
+					out.Chars = append(out.Chars, it.constBV(uint64(sep.S[k]), 8))
+					sb = append(sb, sep.S[k])
+				}
+			}
+			out.Chars = append(out.Chars, cs...)
+			if e.Known {
+				sb = append(sb, e.S...)
+			} else {
+				allKnown = false
+			}
+		}
+		if allKnown {
+			return StrV{Known: true, S: string(sb)}, true
+		}
+		return out, true
+	case "strings.Index":
+		s, ok1 := args[0].(StrV)
+		sub, ok2 := args[1].(StrV)
+		if ok1 && ok2 && s.Known && sub.Known {
+			return it.constBV(uint64(int64(strings.Index(s.S, sub.S))), 64).signed(), true
+		}
+		// a symbolic text: decidable when no character can be the one looked for
+		if ok1 && ok2 && s.Sym && sub.Known && len(sub.S) == 1 {
+			for _, ch := range s.Chars {
+				v, isC := ch.IsConst()
+				if !(isC && ch.Hex == nil && byte(v) != sub.S[0]) {
+					return it.topBV(64).signed(), true
+				}
+			}
+			return it.constBV(^uint64(0), 64).signed(), true
+		}
+		return it.topBV(64).signed(), true
+	case "strings.TrimSuffix", "strings.TrimPrefix", "strings.TrimRight", "strings.TrimLeft", "strings.Trim":
+		s, ok1 := args[0].(StrV)
+		cut, ok2 := args[1].(StrV)
+		if ok1 && ok2 && s.Known && cut.Known {
+			switch name {
+			case "strings.TrimSuffix":
+				return StrV{Known: true, S: strings.TrimSuffix(s.S, cut.S)}, true
+			case "strings.TrimPrefix":
+				return StrV{Known: true, S: strings.TrimPrefix(s.S, cut.S)}, true
+			}
+		}
+		it.unsup("%s of a text whose length would depend on its symbolic contents", name)
+		return OpaqueV{"trimmed text"}, true
 	case "strings.LastIndex":
 		s, ok1 := args[0].(StrV)
 		sub, ok2 := args[1].(StrV)
@@ -419,6 +504,27 @@ func (it *Interp) textModel(st *state, name string, c *ssa.CallCommon, args []Va
 		va, ok := args[1].(SliceV)
 		if !ok {
 			return OpaqueV{"formatted text"}, true
+		}
+		// every operand a constant integer: format it here
+		if va.Len >= 0 && strings.Count(f.S, "%") == va.Len && !strings.ContainsAny(f.S, "svqTpw") {
+			var vals []any
+			all := true
+			for i := 0; i < va.Len; i++ {
+				v, ok := it.load(st, it.sliceElemPtr(va, i), types.Typ[types.Int]).(BV)
+				cv, isC := v.IsConst()
+				if !ok || !isC || v.HasTop() {
+					all = false
+					break
+				}
+				if v.Signed {
+					vals = append(vals, toSigned(cv, v))
+				} else {
+					vals = append(vals, cv)
+				}
+			}
+			if all {
+				return StrV{Known: true, S: fmt.Sprintf(f.S, vals...)}, true
+			}
 		}
 		out := StrV{Sym: true}
 		argi := 0
@@ -488,10 +594,23 @@ func (it *Interp) textModel(st *state, name string, c *ssa.CallCommon, args []Va
 			i = j
 		}
 		return out, true
-	case "strings.Join", "strconv.FormatUint", "strconv.Itoa", "strconv.FormatInt":
+	case "strconv.FormatUint", "strconv.Itoa", "strconv.FormatInt":
+		if v, ok := args[0].(BV); ok {
+			if cv, isC := v.IsConst(); isC {
+				base := 10
+				if name != "strconv.Itoa" {
+					if b, ok := it.concreteInt(args[1]); ok {
+						base = b
+					}
+				}
+				if name == "strconv.FormatUint" {
+					return StrV{Known: true, S: strconv.FormatUint(cv, base)}, true
+				}
+				return StrV{Known: true, S: strconv.FormatInt(toSigned(cv, v), base)}, true
+			}
+		}
+		it.unsup("%s of a symbolic value: the number of characters depends on the value (no fixed width, no zero padding)", name)
 		return OpaqueV{"formatted text"}, true
-	case "strings.Index":
-		return it.topBV(64).signed(), true
 	}
 	return nil, false
 }
